@@ -203,15 +203,24 @@ impl Default for JobOptions {
 #[cfg(feature = "cluster")]
 impl BytesConvertable for JobOptions {
     fn into_bytes(self) -> Vec<u8> {
-        let submit_time = (self
-            .submit_time
-            .duration_since(std::time::UNIX_EPOCH)
-            .expect("Time went backwards")
-            .as_nanos() as u64)
-            .to_be_bytes();
+        let submit_time = u64::try_from(
+            self.submit_time
+                .duration_since(std::time::UNIX_EPOCH)
+                .expect("Time went backwards")
+                .as_nanos(),
+        )
+        .unwrap_or(u64::MAX)
+        .to_be_bytes();
+        // 0 is reserved for "no TTL"; a TTL of `n` nanoseconds travels as `n + 1` so that
+        // `Some(Duration::ZERO)` stays distinguishable from `None`. TTLs which do not fit
+        // saturate instead of wrapping around.
         let ttl = self
             .ttl
-            .map(|t| t.as_nanos() as u64)
+            .map(|t| {
+                u64::try_from(t.as_nanos())
+                    .unwrap_or(u64::MAX)
+                    .saturating_add(1)
+            })
             .unwrap_or(0)
             .to_be_bytes();
 
@@ -234,7 +243,7 @@ impl BytesConvertable for JobOptions {
             let ttl = u64::from_be_bytes(ttl_bytes.try_into().unwrap());
 
             let ttl = if ttl > 0 {
-                Some(Duration::from_nanos(ttl))
+                Some(Duration::from_nanos(ttl - 1))
             } else {
                 None
             };
